@@ -661,10 +661,17 @@ class TapeRecorder(object):
                     return func(*args, **kwargs)
 
                 # If same alias (function) is invoked more than once we want to track each output invocation, the number is
-                # taken in one step as the same alias may be invoked from a few threads of the operation at the same time
+                # taken in one step as the same alias may be invoked from a few threads of the operation at the same time.
+                # The recording may have ended since the check above (an interception still in flight on a thread that
+                # outlives its operation), a number taken then would be charged to the next recording
                 with self._recording_state_lock:
-                    self._invoke_counter[alias] += 1
-                    invocation_number = self._invoke_counter[alias]
+                    still_intercepting = self._should_intercept
+                    if still_intercepting:
+                        self._invoke_counter[alias] += 1
+                        invocation_number = self._invoke_counter[alias]
+
+                if not still_intercepting:
+                    return func(*args, **kwargs)
 
                 # Both in recording and playback mode we record what is sent to the output
                 self._record_output(alias, invocation_number, args if static_function else args[1:], kwargs,
